@@ -2216,6 +2216,7 @@ BUILTINS = {
         v.cell(ctx), (ListCell, PyListCell)), _conv_list),
     'int': TypeTag('int', lambda ctx, v: is_int(v), _conv_int),
     'bool': TypeTag('bool', lambda ctx, v: is_bool(v), _conv_bool),
+    'float': TypeTag('float', lambda ctx, v: isinstance(v, float) or (is_z3(v) and isinstance(v, z3.ArithRef) and v.is_real())),
     'dict': TypeTag('dict', lambda ctx, v: isinstance(v, Ref) and isinstance(
         v.cell(ctx), DictCell), _conv_dict),
     'set': TypeTag('set', lambda ctx, v: isinstance(v, SetV), _conv_set),
